@@ -487,7 +487,9 @@ class Task(Value, Generic[P, R]):
             "script": self.script,
             # This key name is mismatched to avoid a trivial schema update.
             "task_options": self._task_options_override,
-            "export_options": self._export_options,
+            # Sorted, so that the pickled form (and the hash of a container holding this task) does
+            # not follow set iteration order. The empty case keeps its historical encoding.
+            "export_options": sorted(self._export_options) if self._export_options else set(),
         }
 
     def __setstate__(self, state) -> None:
@@ -499,7 +501,7 @@ class Task(Value, Generic[P, R]):
         self.script = state.get("script", False)
         # This key name is mismatched to avoid a trivial schema update.
         self._task_options_override = state.get("task_options", {})
-        self._export_options = state.get("export_options", set())
+        self._export_options = set(state.get("export_options", ()))
 
         # Set func from TaskRegistry.
         registry = get_task_registry()
